@@ -366,7 +366,7 @@ def check_model(m, shuffle=False):
             )
         if not eq:
             recs_equal = all(
-                _cmp_records(_model_records(m, s), _lib_records(p, origin, s), True, True)[0] in ("ok", "case")
+                _cmp_records(_model_records(m, s), _lib_records(p, origin, s), not shuffle, True)[0] in ("ok", "case")
                 for s in range(4)
             )
             meta_forms = m.kind == "update" and any(
